@@ -59,7 +59,7 @@ def scenario(seed, lang):
     for _ in range(nsteps):
         u = rng.choice(uris)
         vers[u] += 1
-        steps.append(('change', u, vers[u], doc_text(rng, lang, rng.random() < 0.4), rng.choice([0, 0, 0, 0.01, 0.05, 0.2])))
+        steps.append((rng.choice(['change', 'change', 'change', 'change2']), u, vers[u], doc_text(rng, lang, rng.random() < 0.4), rng.choice([0, 0, 0, 0.01, 0.05, 0.2])))
     # delays: make some analyses slow before or inside the lock so that later ones finish first
     items = []
     for u in uris:
@@ -85,6 +85,10 @@ FIXED = {
  -5: ('merlin', [('open', U0, 1, MAC_BRA, 0.3), ('change', U0, 2, " ORG $300\n BRA L\nL RTS\n", 0.3)]),
  -6: ('applesoft', [('open', 'file:///verif/fix0.bas', 1, '10 COUNT = 1: COUNTER = 2\n20 GOTO 99\n', 0.3), ('change', 'file:///verif/fix0.bas', 2, '10 PRINT "OK"\n', 0.3)]),
  -7: ('integerbasic', [('open', 'file:///verif/fix0.bas', 1, '10 DIM A$(10): GOTO 99\n', 0.3), ('change', 'file:///verif/fix0.bas', 2, '10 PRINT A$\n', 0.3)]),
+ # one notification with two content changes: the diagnostics must describe the last of them
+ -8: ('integerbasic', [('open', 'file:///verif/fix0.bas', 1, '10 PRINT 1\n', 0.3), ('change2', 'file:///verif/fix0.bas', 2, '10 PRINT 2\n20 END\n', 0.3)]),
+ -9: ('applesoft', [('open', 'file:///verif/fix0.bas', 1, '10 PRINT 1\n', 0.3), ('change2', 'file:///verif/fix0.bas', 2, '10 PRINT 2\n20 END\n', 0.3)]),
+ -10: ('merlin', [('open', U0, 1, PLAIN, 0.3), ('change2', U0, 2, " ORG $300\n LDA #2\n RTS\n", 0.3)]),
 }
 
 
@@ -105,7 +109,7 @@ def one(args):
         per[u].append((v, d))
     for u, last in obs['last_sent'].items():
         vs = [v for v, _ in per[u]]
-        if any(b is None or a is None or b <= a for a, b in zip(vs, vs[1:])):
+        if any(b is None or a is None or b < a for a, b in zip(vs, vs[1:])):     # equal: one notification with several content changes
             fails.append(('out-of-order', f"{u}: versions published in the order {vs}"))
         if not vs:
             fails.append(('nothing-published', f"{u}: no diagnostics at all for {last} versions sent"))
